@@ -115,3 +115,45 @@ Example ex_wire_length_hyp :
              mkModule "Q" (Some (qc 6 1, qc 8 1)) None true true false false [("_", 0)] []] in
   net_sqdists ms (mkNet ["P"; "Q"] 1) = Some [qc 25 1; qc 25 1].
 Proof. vm_compute. reflexivity. Qed.
+
+(* ---- the full round trip (Yaml/NetlistImage.v) is not vacuous ---- *)
+From FrameModel Require Import Yaml.NetlistImage.
+
+(* a hard module whose trunk is its SECOND rectangle ([1,3,2,2] sits on top of
+   [2,1,4,2]): the load swaps the trunk to the front, the written document
+   lists it first, and the reload finds it there *)
+Definition doc1 : ytree :=
+  YMap [("Modules", YMap [
+           ("B", YMap [("hard", YBool true);
+                       ("rectangles", YList [
+                          YList [YNum (qc 1 1) true; YNum (qc 3 1) true; YNum (qc 2 1) true; YNum (qc 2 1) true];
+                          YList [YNum (qc 2 1) true; YNum (qc 1 1) true; YNum (qc 4 1) true; YNum (qc 2 1) true]])]);
+           ("A", YMap [("area", YNum (qc 3 1) true)])]);
+        ("Nets", YList [YList [YStr "A"; YStr "B"]])].
+
+Example ex_doc1_swapped : exists n, read_netlist sqrt0 e0 doc1 = Ok n /\
+  match nl_modules n with
+  | m :: _ => match m_rects m with
+              | r :: r' :: _ => mr_loc r = TRUNK /\ sval (mr_x r) = qc 2 1 /\ mr_loc r' = NORTH
+              | _ => False
+              end
+  | _ => False
+  end.
+Proof. eexists. split; [vm_compute; reflexivity|]. cbn. repeat split. Qed.
+
+Example ex_doc1_round_trip : exists n n',
+  read_netlist sqrt0 e0 doc1 = Ok n /\ read_netlist sqrt0 e0 (write_netlist n) = Ok n' /\
+  nl_modules n' = nl_modules n /\ write_netlist n' = write_netlist n.
+Proof.
+  destruct ex_doc1_swapped as (n & H & _).
+  destruct (rt_read_write sqrt0 e0 doc1 n H) as (n' & A & B & C & _).
+  exists n, n'. repeat split; auto. unfold write_netlist. rewrite B, C. reflexivity.
+Qed.
+
+Example ex_doc0_round_trip : exists n n',
+  read_netlist sqrt0 None doc0 = Ok n /\ read_netlist sqrt0 None (write_netlist n) = Ok n' /\
+  write_netlist n' = write_netlist n.
+Proof.
+  assert (H : exists n, read_netlist sqrt0 None doc0 = Ok n) by (eexists; vm_compute; reflexivity).
+  destruct H as (n & H). destruct (rt_idempotent sqrt0 None doc0 n H) as (n' & A & B). eauto.
+Qed.
